@@ -125,23 +125,56 @@ def groupR (keyOf : Row → List Val) : List Row → List (List Val × List Row)
     if g.any (fun p => p.1 = keyOf r) then g.map (fun p => if p.1 = keyOf r then (p.1, r :: p.2) else p)
     else (keyOf r, [r]) :: g
 
-/-- value of a grouped expression inside a group with key tuple `kv`; an expression that is not grouped
-    has no value there (the engine rejects the statement) -/
+/-- an expression without column references has one value, whatever the row -/
+def constValue (e : Expr) : Val := if e.refs = [] then eval [] [] e else .null
+
+/-- value of a select-list key expression inside a group with key tuple `kv`: a grouped expression has the
+    value recorded in the key tuple; an expression that is not grouped is evaluated as it stands if it is a
+    constant, and has no value otherwise (the engine rejects the statement) -/
 def keyValue : List Expr → List Val → Expr → Val
   | g :: gs, v :: vs, e => if g = e then v else keyValue gs vs e
-  | _, _, _ => .null
+  | _, _, e => constValue e
+
+def Expr.isIntLit : Expr → Bool
+  | .lit (.int _) => true
+  | _ => false
+
+/-- **the engine reads a bare integer constant in GROUP BY as a position in the select list** (1-based): the
+    term then stands for that select item's expression; a position outside the list, or one that names an
+    aggregate, is rejected (`none`).  Every other expression stands for itself. -/
+def groupByTerm (sel : List (Name × GItem)) : Expr → Option Expr
+  | .lit (.int n) =>
+    if n ≤ 0 then none
+    else match sel[(n - 1).toNat]? with
+      | some (_, .key e) => some e
+      | _ => none
+  | e => some e
+
+def resolveGroupBy (sel : List (Name × GItem)) : List Expr → Option (List Expr)
+  | [] => some []
+  | e :: es =>
+    match groupByTerm sel e, resolveGroupBy sel es with
+    | some a, some as => some (a :: as)
+    | _, _ => none
+
+/-- the table standing for "the engine rejected the statement" -/
+def aggErrTable : Table := { cols := [], rows := [] }
 
 def evalGBlock (b : GBlock) (T0 : Table) : Table :=
-  let rows0 := stWhere b.wher T0
-  let groups := if b.groupBy = [] then [([], rows0)] else groupR (fun r => b.groupBy.map (eval T0.cols r)) rows0
-  { cols := b.sel.map (·.1),
-    rows := groups.map (fun kg => b.sel.map (fun it =>
-      match it.2 with
-      | .key e => keyValue b.groupBy kg.1 e
-      | .agg a => evalAExpr T0.cols kg.2 a)) }
+  match resolveGroupBy b.sel b.groupBy with
+  | none => aggErrTable
+  | some gby =>
+    let rows0 := stWhere b.wher T0
+    let groups := if gby = [] then [([], rows0)] else groupR (fun r => gby.map (eval T0.cols r)) rows0
+    { cols := b.sel.map (·.1),
+      rows := groups.map (fun kg => b.sel.map (fun it =>
+        match it.2 with
+        | .key e => keyValue gby kg.1 e
+        | .agg a => evalAExpr T0.cols kg.2 a)) }
 
-/-- `GROUP BY GROUPING SETS (…)`: the union of the groupings; keys outside a set are NULL; the empty set
-    is one group even over no rows -/
+/-- `GROUP BY GROUPING SETS (…)`: the union of the groupings; a key that is grouped in *some* set is NULL in
+    the rows of the sets it is not in, a key expression grouped in no set is a constant; the empty set is one
+    group even over no rows; integer constants inside a set are positions (as above) -/
 structure GSBlock where
   wher : List Expr
   sets : List (List Expr)
@@ -149,14 +182,26 @@ structure GSBlock where
   aggs : List (Name × AExpr)
   deriving Repr
 
+def resolveSets (sel : List (Name × GItem)) : List (List Expr) → Option (List (List Expr))
+  | [] => some []
+  | S :: Ss =>
+    match resolveGroupBy sel S, resolveSets sel Ss with
+    | some a, some as => some (a :: as)
+    | _, _ => none
+
 def evalGSBlock (b : GSBlock) (T0 : Table) : Table :=
-  let rows0 := stWhere b.wher T0
-  { cols := b.keys.map (·.1) ++ b.aggs.map (·.1),
-    rows := b.sets.flatMap (fun S =>
-      let groups := if S = [] then [([], rows0)] else groupR (fun r => S.map (eval T0.cols r)) rows0
-      groups.map (fun kg =>
-        b.keys.map (fun k => if k.2 ∈ S then keyValue S kg.1 k.2 else .null) ++
-        b.aggs.map (fun a => evalAExpr T0.cols kg.2 a.2))) }
+  let sel := b.keys.map (fun k => (k.1, GItem.key k.2)) ++ b.aggs.map (fun a => (a.1, GItem.agg a.2))
+  match resolveSets sel b.sets with
+  | none => aggErrTable
+  | some sets =>
+    let rows0 := stWhere b.wher T0
+    { cols := b.keys.map (·.1) ++ b.aggs.map (·.1),
+      rows := sets.flatMap (fun S =>
+        let groups := if S = [] then [([], rows0)] else groupR (fun r => S.map (eval T0.cols r)) rows0
+        groups.map (fun kg =>
+          b.keys.map (fun k => if k.2 ∈ S then keyValue S kg.1 k.2
+                               else if sets.any (fun S' => k.2 ∈ S') then .null else constValue k.2) ++
+          b.aggs.map (fun a => evalAExpr T0.cols kg.2 a.2))) }
 
 /-! ### PySpark's specification -/
 
@@ -241,9 +286,25 @@ def DF.groupBy (d : DF) (keys : List (Name × Expr)) : GroupedData :=
 def DF.cube (d : DF) (keys : List (Name × Expr)) : GroupedData :=
   { df := enterOp tag_cube d, keys := keys, sets := some (cubeSets keys) }
 
-def aggErrTable : Table := { cols := [], rows := [] }
+/-- the sqlglot class of a key's un-aliased expression (what `isinstance` / `is_string` tests in `agg` see) -/
+def keyClass : Expr → KeyClass
+  | .lit (.str _) => .strLit
+  | .lit (.int _) => .numLit
+  | .lit (.bool _) => .boolLit
+  | .lit .null => .nullLit
+  | .col _ => .column
+  | _ => .other
 
-/-- body of `GroupedData.agg`: GROUP BY on the un-aliased key expressions, select list keys ++ aggregates
+/-- the GROUP BY list of the plain branch: `[x.column_expression for x in self.group_by_cols <if …>]` -/
+def groupByList (keys : List (Name × Expr)) : List Expr :=
+  (keys.filter (fun k => groupByKeeps (keyClass k.2))).map (·.2)
+
+/-- the tuple of one grouping set: `[x.column_expression for x in grouping_set <if …>]` -/
+def groupingSetList (S : List (Name × Expr)) : List Expr :=
+  (S.filter (fun k => groupingSetKeeps (keyClass k.2))).map (·.2)
+
+/-- body of `GroupedData.agg`: GROUP BY on the un-aliased expressions of the keys the generated filter keeps
+    (all of them on the pinned tree), select list keys ++ aggregates
     replacing the previous list (`append=False`); WHERE is kept (a filter before the aggregation); a
     DISTINCT / ORDER BY / LIMIT left in the block would be applied *after* the aggregation by the engine,
     which is not what the program said (`aggErrTable`) -/
@@ -252,10 +313,10 @@ def bodyAgg (keys : List (Name × Expr)) (sets : Option (List (List (Name × Exp
     if d.blk.distinct = false ∧ d.blk.order = [] ∧ d.blk.limit = none then
       match sets with
       | none =>
-        evalGBlock { wher := d.blk.wher, groupBy := keys.map (·.2),
+        evalGBlock { wher := d.blk.wher, groupBy := groupByList keys,
                      sel := keys.map (fun k => (k.1, GItem.key k.2)) ++ aggs.map (fun a => (a.1, GItem.agg a.2)) } d.src
       | some ss =>
-        evalGSBlock { wher := d.blk.wher, sets := ss.map (fun S => S.map (·.2)), keys := keys, aggs := aggs } d.src
+        evalGSBlock { wher := d.blk.wher, sets := ss.map groupingSetList, keys := keys, aggs := aggs } d.src
     else aggErrTable
   { src := T, blk := { sel := identSel T.cols }, last := d.last }
 
@@ -400,7 +461,34 @@ def noCubeOnEmpty (T : Table) : List GStep → Bool
   | [] => true
   | s :: ss => !(s.isCube && T.rows.isEmpty) && noCubeOnEmpty (specG T s) ss
 
+/-- **scope hypothesis** `H_intLiteralKey`: no grouping key that reaches the GROUP BY clause is an integer
+    literal.  (`groupBy(lit(7).alias("c"))` is emitted as `GROUP BY 7`, which the engine reads as the 7th
+    select item: the statement is rejected, or — inside cube's grouping sets — groups by another key.
+    PySpark groups by the constant.)  Dropping such keys from the clause (`groupByKeeps .numLit = false`)
+    makes the hypothesis true for every input. -/
+def GOp.intLitKeyInGroupBy (g : GOp) : Bool :=
+  match g.specParts with
+  | none => false
+  | some p =>
+    (if g.isCube then groupingSetKeeps .numLit else groupByKeeps .numLit) && p.1.any (fun k => k.2.isIntLit)
+
+def GStep.intLitKeyInGroupBy : GStep → Bool
+  | .group g => g.intLitKeyInGroupBy
+  | _ => false
+
+def noIntLitKey (steps : List GStep) : Bool := steps.all (fun s => !s.intLitKeyInGroupBy)
+
 def violatedC06 (T : Table) (steps : List GStep) : List String :=
-  if noCubeOnEmpty T steps then [] else ["H_cubeEmptyInput"]
+  (if noCubeOnEmpty T steps then [] else ["H_cubeEmptyInput"]) ++
+  (if noIntLitKey steps then [] else ["H_intLiteralKey"])
+
+/-- does the engine reject the statement some grouping step of the chain builds? (the model's result is
+    then meaningless; the real code raises when the DataFrame is collected) -/
+def DF.runGErr (d : DF) : List GStep → Bool
+  | [] => false
+  | s :: ss =>
+    (match s with
+     | .group _ => decide ((d.applyG s).eval.cols = [])
+     | .plain _ => false) || (d.applyG s).runGErr ss
 
 end Sqlframe
